@@ -227,7 +227,7 @@ func serializeAttrs(pc *PrintCtx, kvps Attrs) (err error) { //nolint:revive
 			pc.pcAppendColon()
 		}
 
-		if key == timestampFieldName {
+		if key == timestampFieldName && prefix == "" { // the top-level attribute only: a group member named "time" is an ordinary attribute
 			// we format timestamp in according to the setting in flags
 			if z, ok := v.Value().(time.Time); ok {
 				// if pc.jsonMode || pc.noColor {
